@@ -269,7 +269,7 @@ fn run(args: &Args, rep: &mut Report) {
         ),
     );
     if args.tier == vcore::rt::Tier::Thorough {
-        checks::fuzzrun::campaign(rep, args, "parser", 400000, checks::oracle::fuzz_parser);
+        checks::fuzzrun::campaign(rep, args, "parser", 250000, checks::oracle::fuzz_parser);
     }
 }
 
